@@ -1,0 +1,45 @@
+//go:build verif
+// +build verif
+
+package store
+
+// Thin exported wrappers used by the external verification harness from other
+// packages. Only built with the tag "verif".
+
+// VerifFlush runs one round of the flusher body.
+func (store *HStore) VerifFlush(force bool) {
+	store.flushdatas(force)
+}
+
+// VerifDumpHints runs one round of the hint dumper body.
+func (store *HStore) VerifDumpHints() {
+	for _, bkt := range store.buckets {
+		if bkt.State == BUCKET_STAT_READY {
+			bkt.hints.dumpAndMerge(false)
+		}
+	}
+}
+
+// VerifGCDirect runs a GC pass synchronously.
+func (store *HStore) VerifGCDirect(bucketID, begin, end int, merge bool) {
+	store.gcMgr.gc(store.buckets[bucketID], begin, end, merge)
+}
+
+// VerifBucketHome returns the directory of a bucket.
+func (store *HStore) VerifBucketHome(bucketID int) string {
+	return store.buckets[bucketID].Home
+}
+
+// VerifSetKeyHash overrides the key hash function (nil restores the default).
+func VerifSetKeyHash(f func(key []byte) uint64) {
+	if f == nil {
+		getKeyHash = getKeyHashDefalut
+		return
+	}
+	getKeyHash = f
+}
+
+// VerifKeyHash returns the key hash in use.
+func VerifKeyHash(key []byte) uint64 {
+	return getKeyHash(key)
+}
